@@ -915,7 +915,18 @@ def rule_capacity(ctx):
     return res.finish(1)
 
 
+rule_address = None
+
+
+def _address_rule():
+    global rule_address
+    if rule_address is None:
+        from . import addrshortcut
+        rule_address = addrshortcut.make_rule("R-C07-address", lambda f: f["d"]["krate"] == "linfa_nn", "linfa-nn (the queries of the indices)")
+    return rule_address
+
+
 def rules(tier):
     from . import precision
-    return [rule_unit, rule_sib, rule_edge, rule_degree, rule_memorder, rule_cover, rule_direct,
+    return [_address_rule(), rule_unit, rule_sib, rule_edge, rule_degree, rule_memorder, rule_cover, rule_direct,
             precision.make_rule("R-C07-precision", lambda f: f["d"]["krate"] == "linfa_nn", 30, "linfa-nn"), rule_noint, rule_dispatch, rule_capacity, rule_convpair, rule_signedpower]
